@@ -148,7 +148,9 @@ TrAction ==
            after == DbOf(Ev.after)
            Ok(newT, n) == /\ Ev.err = "" /\ Ev.n = n
                           /\ after = [db EXCEPT ![Ev.table] = [cols |-> TC, rows |-> newT]]
-           Failed == Ev.err # "" /\ after = db
+           \* a failed statement leaves everything unchanged (rolled: it ran inside a larger
+           \* transaction which is now aborted as a whole; the driver restarts the model)
+           Failed == Ev.err # "" /\ (Ev.rolled \/ after = db)
        IN /\ CASE Ev.kind = "insert" ->
                     LET rec == Pad(RowOf(Ev.rcols, Ev.rvals), TC)
                     IN IF rec \notin T /\ KeyUnique(T \cup {rec}, Ev.keys)
